@@ -79,7 +79,9 @@ let show_notification (x : notification) : string =
       | APubRec k -> Printf.sprintf "ACK PUBREC %d" (i k)
       | APubRel k -> Printf.sprintf "ACK PUBREL %d" (i k)
       | APubComp k -> Printf.sprintf "ACK PUBCOMP %d" (i k)
-      | AUnsubAck k -> Printf.sprintf "ACK UNSUBACK %d" (i k)
+      | AUnsubAck (k, rs) ->
+          Printf.sprintf "ACK UNSUBACK %d %s" (i k)
+            (match rs with [] -> "-" | _ -> String.concat "," (List.map (fun c -> string_of_int (i c)) rs))
       | APingResp -> "ACK PINGRESP")
   | NUnschedule -> "UNSCHEDULE"
   | NDisconnect r -> Printf.sprintf "DISCONNECT %d" (i r)
